@@ -410,6 +410,9 @@ func genCase(t *rapid.T, conc bool) *dbCase {
 	g := &gen{t: t, ns: newNS(), usedOps: map[string]bool{}, conc: conc}
 	g.dbs = rapid.SliceOfNDistinct(rapid.SampledFrom(backends), 1, 2, func(b backend) string { return b.Name }).Draw(t, "dbs")
 	c := &dbCase{NS: g.ns, Concurrent: conc}
+	for _, b := range g.dbs {
+		c.DBs = append(c.DBs, b.Name)
+	}
 
 	for _, b := range g.dbs {
 		n := rapid.IntRange(0, 5).Draw(t, "nprefill")
@@ -479,6 +482,10 @@ func replayed(t *testing.T) bool {
 	}
 	replayOnce.Do(func() {
 		t.Logf("replaying journalled case:\n%s", c.render())
+		if c.Websocket {
+			runWebsocketCase(t, c, 2)
+			return
+		}
 		runCase(t, c)
 	})
 	return true
